@@ -1,9 +1,9 @@
-(* Obligation C20/lognormal_pdf_integrates_to_cdf.  Statement as printed by Coq from Inferno.C20.DistProofs; proof by reference.
+(* Obligation C20/lognormal_pdf_integrates_to_cdf.  Statement as printed by Coq from Inferno.C20.DistLogNormal; proof by reference.
    This file contains nothing else, so the statement cannot be weakened quietly. *)
 From Coq Require Import Reals List ZArith Bool.
 From Coquelicot Require Import Coquelicot.
 From Flocq Require Import Core.Raux.
-From Inferno Require Import Base.Num Base.NumR C20.Model C20.Spec C20.DistProofs.
+From Inferno Require Import Base.Num Base.NumR Gen.Distributions C20.Model C20.Spec C20.DistLogNormal.
 Import ListNotations.
 Open Scope R_scope.
 Theorem lognormal_pdf_integrates_to_cdf : forall (erf : R -> R) (loc : T RN) (scale a b : R),
@@ -13,5 +13,5 @@ Theorem lognormal_pdf_integrates_to_cdf : forall (erf : R -> R) (loc : T RN) (sc
   0 < b ->
   is_RInt (fun x : R => lognormal_pdf RN (2 * PI) x loc scale) a b
     (lognormal_cdf RN erf b loc scale - lognormal_cdf RN erf a loc scale).
-Proof. exact (@Inferno.C20.DistProofs.lognormal_pdf_integrates_to_cdf). Qed.
+Proof. exact (@Inferno.C20.DistLogNormal.lognormal_pdf_integrates_to_cdf). Qed.
 Print Assumptions lognormal_pdf_integrates_to_cdf.
